@@ -181,7 +181,7 @@ class ExprShape(Shape):
             shims.install()
 
     def expected_outcomes(self):
-        return ['ok'] if self.sid.split(':')[0] in ('op1', 'op2', 'op3', 'hand') else []
+        return ['ok'] if self.sid.split(':')[0] in ('op1', 'op2', 'op3', 'hand', 'neg-mid', 'neg-first', 'neg-last', 'neg-mid-right') else []
 
     def _leaves(self):
         out = []
@@ -390,6 +390,13 @@ def shapes(tier, seed):
               ('neg', ('/', ('leaf', 'p'), ('leaf', 'q'))), ('/', ('neg', ('leaf', 'p')), ('leaf', 'q')),
               ('par', ('par', ('+', ('leaf', 'p'), ('leaf', 'q'))))]:
         add('hand', t)
+    P, Q, R = ('leaf', 'p'), ('leaf', 'q'), ('leaf', 'r')
+    for o1 in ('*', '/', '%', '+', '-', '<<', '&'):
+        for o2 in ('*', '/', '%', '+', '-', '>>', '|'):
+            add('neg-mid', (o2, (o1, P, ('neg', Q)), R))          # p o1 -q o2 r
+            add('neg-first', (o2, (o1, ('neg', P), Q), R))        # -p o1 q o2 r
+            add('neg-last', (o2, (o1, P, Q), ('neg', R)))         # p o1 q o2 -r
+            add('neg-mid-right', (o1, P, (o2, ('neg', Q), R)))    # p o1 (-q o2 r)
     t2 = trees(2)
     if tier == 'quick':
         rnd.shuffle(t2)
